@@ -44,8 +44,8 @@ ASSUMPTIONS = ["in the sequential/concurrent histories arrivals are whole keypre
                "discipline buffers 4095) so that the paste/segmentation expectations are exact; cut keypresses and larger "
                "bursts are judged by conservation only (split and flood scenarios); a cut after the first byte of a "
                "multi-byte character is returned as two keys (8-bit meta key first) - bytes conserved, naming not judged",
-               "table sequences that are proper prefixes of longer ones are not generated as units (followed by a non-ASCII "
-               "character they hit the recorded finding C03:prefix-then-undecodable-byte, which C03 also drives through Input)",
+               "where the decoder itself fails on a burst (a sequence prefix followed by a non-ASCII character, recorded under "
+               "C03) the exact segmentation is not judged, only 'no exception', 'one paste event' and conservation",
                "unget_bytes is only called when no stream byte is outstanding (ungot bytes are appended to the buffer and "
                "could otherwise land inside a half-read keypress)",
                "scheduled triggers are called from the requesting thread",
@@ -123,11 +123,10 @@ class Rig:
         if _CLS[0] is None:
             _CLS[0] = classes()
         bad = set(UNGET_ALPHABET)
-        # table sequences that are proper prefixes of longer ones are left out: followed by a
-        # non-ASCII character they hit the recorded decoder finding C03:prefix-then-undecodable-byte
-        # (a fixed witness of it through Input is kept among the known findings)
-        self.tabs = sorted(t for t in self.facts.table if t not in self.facts.meta and not (set(t) & bad)
-                           and not self.facts.T_prefix(t))
+        # table sequences that are proper prefixes of longer ones (ESC, ESC [ ...) included: they merge
+        # with what follows as the decoder's segmentation says, and followed by a non-ASCII character
+        # Input recovers from the decoder's failure (conservation is still judged)
+        self.tabs = sorted(t for t in self.facts.table if t not in self.facts.meta and not (set(t) & bad))
 
     def close(self):
         self._pin.restore()
@@ -475,9 +474,17 @@ def run_buffered(ctx, case):
                         problems.append(("single-key", {"expected": rest[i:i + 1], "got": summarize(ret), "buffered_key": i}))
                         break
             if not problems:
-                seg = drive(events.get_key, [data], "utf-8", events.Keynames.BYTES)
+                try:
+                    seg = drive(events.get_key, [data], "utf-8", events.Keynames.BYTES)
+                except Exception:
+                    seg = None      # the decoder itself fails on this burst: only "one paste event" and conservation
                 ret = req()
-                if ret != ("paste", seg):
+                if seg is None:
+                    if ret[0] != "paste":
+                        problems.append(("paste-behind-buffered-keys", {"burst_len": len(data), "threshold": pt,
+                                                                        "buffered": len(rest), "how": case["how"],
+                                                                        "got": summarize(ret)}))
+                elif ret != ("paste", seg):
                     problems.append(("paste-behind-buffered-keys", {"burst_len": len(data), "threshold": pt,
                                                                     "buffered": len(rest), "how": case["how"],
                                                                     "expected_keys": len(seg), "got": summarize(ret)}))
@@ -709,7 +716,10 @@ def run_names(ctx, case):
                     ctx.inconclusive_because("pty did not deliver a burst within 5 s")
                     return
                 hist.append({"k": "write", "data": data})
-                want = drive(events.get_key, [data], "utf-8", km)
+                try:
+                    want = drive(events.get_key, [data], "utf-8", km)
+                except Exception:
+                    want = None     # the decoder itself fails on this burst (recorded under C03): no exception expected, names not judged
                 got = []
                 exc = None
                 while True:
@@ -725,7 +735,7 @@ def run_names(ctx, case):
                 if exc is not None:
                     problems.append(("raise", {"exception": [type(exc).__name__, str(exc)[:100]], "burst_len": len(data)}))
                     break
-                if got != want:
+                if want is not None and got != want:
                     i = next((j for j, (a, b) in enumerate(zip(got, want)) if a != b), min(len(got), len(want)))
                     problems.append(("names", {"burst_len": len(data), "first_difference_at_key": i,
                                                "expected": want[i:i + 3], "got": got[i:i + 3]}))
